@@ -425,10 +425,11 @@ impl<'a> VisitMut for Norm<'a> {
             let mut out: Vec<Stmt> = vec![];
             for mut s in old {
                 let mut pre: Vec<Stmt> = vec![];
-                if let Stmt::Local(l) = &mut s {
-                    if let Some(init) = &mut l.init {
-                        self.split_spine(&mut init.expr, &mut pre);
-                    }
+                match &mut s {
+                    Stmt::Local(l) => { if let Some(init) = &mut l.init { self.split_spine(&mut init.expr, &mut pre); } }
+                    // statement-level `if let P = E { .. }`: E is evaluated first
+                    Stmt::Expr(Expr::If(i), _) => { if let Expr::Let(l) = &mut *i.cond { self.split_spine(&mut l.expr, &mut pre); } }
+                    _ => {}
                 }
                 out.extend(pre);
                 out.push(s);
@@ -946,29 +947,38 @@ impl<'a> VisitMut for Norm<'a> {
 }
 
 impl<'a> Norm<'a> {
+    /// R-LETSPLIT: walk the "first evaluated" spine of an expression (method receiver, first argument of a path call,
+    /// operand of `?`/`.await`) and bind the calls named by @letsplit to fresh `__tK` temporaries, innermost first.
     fn split_spine(&mut self, e: &mut Expr, out: &mut Vec<Stmt>) {
         match e {
-            Expr::MethodCall(mc) => {
-                self.split_spine(&mut mc.receiver, out);
-                let callee = match &*mc.receiver {
-                    Expr::MethodCall(r) => Some(r.method.to_string()),
-                    Expr::Call(c) => if let Expr::Path(p) = &*c.func { p.path.segments.last().map(|s| s.ident.to_string()) } else { None },
-                    _ => None,
-                };
-                if let Some(nm) = callee {
-                    if self.spec.letsplit.iter().any(|x| x == &nm) {
-                        self.split_no += 1;
-                        let id = Ident::new(&format!("__t{}", self.split_no), Span::call_site());
-                        let recv = (*mc.receiver).clone();
-                        out.push(parse_quote!(let #id = #recv;));
-                        mc.receiver = Box::new(parse_quote!(#id));
-                        self.bump("R-LETSPLIT");
-                    }
+            Expr::MethodCall(mc) => self.split_slot(&mut mc.receiver, out),
+            Expr::Call(c) => {
+                if matches!(&*c.func, Expr::Path(_)) {
+                    if let Some(first) = c.args.first_mut() { self.split_slot(first, out); }
                 }
             }
             Expr::Try(t) => self.split_spine(&mut t.expr, out),
             Expr::Await(a) => self.split_spine(&mut a.base, out),
+            Expr::Paren(p) => self.split_spine(&mut p.expr, out),
             _ => {}
+        }
+    }
+    fn split_slot(&mut self, slot: &mut Expr, out: &mut Vec<Stmt>) {
+        self.split_spine(slot, out);
+        let callee = match &*slot {
+            Expr::MethodCall(r) => Some(r.method.to_string()),
+            Expr::Call(c) => if let Expr::Path(p) = &*c.func { p.path.segments.last().map(|s| s.ident.to_string()) } else { None },
+            _ => None,
+        };
+        if let Some(nm) = callee {
+            if self.spec.letsplit.iter().any(|x| x == &nm) {
+                self.split_no += 1;
+                let id = Ident::new(&format!("__t{}", self.split_no), Span::call_site());
+                let val = slot.clone();
+                out.push(parse_quote!(let #id = #val;));
+                *slot = parse_quote!(#id);
+                self.bump("R-LETSPLIT");
+            }
         }
     }
 
